@@ -228,6 +228,7 @@ def plan(tier, seed):
     specs = [{"part": "unary", "system": list(s)} for s in R.ALL_SYSTEMS]
     specs += [{"part": "angle", "dim": d, "asys": list(s)} for d in (2, 3, 4) for s in R.SYSTEMS[d]]
     specs += [{"part": "mp", "dim": d} for d in (2, 3, 4)]
+    specs += [{"part": "results", "dim": d} for d in (2, 3, 4)]
     return specs
 
 
@@ -639,13 +640,91 @@ def run_mp(spec, tier, seed, res, hook):
             res.cell("closed bounds via hook", R.sysname(system), "mp")
 
 
+def run_results(spec, tier, seed, res, hook):
+    """the ranges hold for the coordinates of every vector the library *returns*: whatever a vector-valued operation stores
+    as phi lies in [-pi, pi], as theta in [0, pi], as rho is >= 0 -- for operands whose own stored coordinates are in
+    range, with azimuths close to the +-pi cut so that sums, differences and rotations cross it"""
+    from .. import catalog as C
+    from .. import engine as E
+    from .. import workload as W
+
+    dim = spec["dim"]
+    ops = [op for op in C.OPS.values() if dim in op.dims and op.result == "vec"]
+    for op in ops:
+        r = gen.rng(seed, "C13res", op.name, dim)
+        odims = op.other_dims(dim) if op.other_dims else (None,)
+        nd = 6 if tier == "quick" else 60
+        for di in range(nd):
+            odim = odims[di % len(odims)]
+            d = W.make_draw(op, dim, r, core=True, mp=False, odim=odim, momentum=op.momentum_only or di % 2 == 0)
+            # move the azimuths to the cut: self just below +pi or just above -pi, the other vector on the other side
+            def near_cut(rv, sign, width):
+                c = list(rv.comps())
+                rho = mpmath.sqrt(c[0] ** 2 + c[1] ** 2)
+                if rho == 0:
+                    return rv
+                phi = sign * (mpmath.pi - width)
+                c[0], c[1] = gen._round_dyadic(rho * mpmath.cos(phi), 40), gen._round_dyadic(rho * mpmath.sin(phi), 40)
+                return R.RV(*c)
+            w1 = mpf(r.choice(["0.05", "0.2", "0.6", "1e-9"]))
+            w2 = mpf(r.choice(["0.05", "0.3", "0.9", "1e-9"]))
+            sgn = r.choice([1, -1])
+            d.self_rv = near_cut(d.self_rv, sgn, w1)
+            d.args = [(k, near_cut(a, -sgn, w2)) if (k == "vec" and a.dim >= 2 and r.random() < 0.8) else (k, a) for k, a in d.args]
+            for s_self, s_other, order in W.systems_for(d):
+                if r.random() > (0.5 if tier == "quick" else 1.0) and s_self[0] != "rhophi":
+                    continue
+                try:
+                    self_l, args = W.instantiate(d, s_self, s_other, order)
+                    self_l.f64()
+                    for a in args:
+                        if isinstance(a, E.LVec):
+                            a.f64()
+                except R.NotRepresentable:
+                    continue
+                for backend in ("object", "numpy"):
+                    try:
+                        if backend == "object":
+                            v, a = E.mat_obj(self_l), [E.mat_obj(x) for x in args]
+                        else:
+                            v = B.mk_numpy_cls(self_l.system, [self_l.f64()[0]], self_l.momentum)
+                            a = [B.mk_numpy_cls(x.system, [x.f64()[0]], x.momentum) if isinstance(x, E.LVec) else E.mat_obj(x) for x in args]
+                        hook.ctx = f"result of {op.name}"
+                        out = op.call(v, *a)
+                    except Exception:
+                        res.count("result_pass_call_raised")
+                        continue
+                    res.evaluations += 1
+                    try:
+                        _, osys, cols, _, _ = B.stored_columns(out)
+                    except Exception:
+                        continue
+                    for nm, col in zip(R.field_names(osys), cols):
+                        for x in col:
+                            x = float(x)
+                            bad = None
+                            if x != x:
+                                continue  # NaN results are the value checks' business (C01/C02)
+                            if nm == "phi" and not (-PI <= x <= PI):
+                                bad = "stored-phi-of-a-result-outside-[-pi,pi]"
+                            elif nm == "theta" and not (0 <= x <= PI):
+                                bad = "stored-theta-of-a-result-outside-[0,pi]"
+                            elif nm == "rho" and x < 0:
+                                bad = "stored-rho-of-a-result-negative"
+                            if bad:
+                                res.violation(f"C13/range {bad} op={op.name}",
+                                              {"backend": backend, "value": repr(x), "result_system": R.sysname(osys), "self": self_l.describe(),
+                                               "args": [E.describe_arg(x_) for x_ in args]})
+                    res.cell("result-coordinates-in-range", op.name, R.sysname(osys), backend)
+
+
 def run_shard(spec, tier, seed):
     tap.install()
     res = Result()
     hook = RangeHook(res)
     tap.HOOKS.append(hook)
     try:
-        {"unary": run_unary, "angle": run_angle, "mp": run_mp}[spec["part"]](spec, tier, seed, res, hook)
+        {"unary": run_unary, "angle": run_angle, "mp": run_mp, "results": run_results}[spec["part"]](spec, tier, seed, res, hook)
     finally:
         tap.HOOKS.remove(hook)
     return res
